@@ -59,6 +59,15 @@ var ops = []struct {
 	{"for _, v := range st.S {\nst.S = st.S[:1]\nj += v\n}", false}, {"{\nn := 0\nfor _, v := range st.S {\nn++\nif n > 6 {\nbreak\n}\nst.S = append(st.S, v)\nj += v\n}\n}", false},
 	{"for k := range st.A {\nst.A[(k+1)%2] += 10\nj += st.A[k]\n}", false}, {"for k, v := range ss[1] {\nss[1] = ss[1][:1]\nj += v + k\n}", false},
 	{"for k, v := range ms[\"k\"].A {\nj += v + k\n}", false}, {"for _, t := range []T{st, su} {\nt.N++\nj += t.N\n}", false},
+	// fourth generation: parallel assignment whose right-hand operands are read THROUGH something an earlier destination of
+	// the same statement writes (dereferences, pointer-reached fields / elements, parenthesised, converted and sliced
+	// operands, whole structs / arrays swapped through pointers): all operands are evaluated before any store
+	{"*pi, i = i, *pi", true}, {"{\npa, pb := &ar[0], &ar[2]\n*pa, *pb = *pb, *pa\n}", false}, {"{\npa, pb := &st, &su\n*pa, *pb = *pb, *pa\n}", false},
+	{"{\npa, pb := &ar, &br\n*pa, *pb = *pb, *pa\n}", false}, {"{\npa := &sl[0]\nsl[0], sl[1] = sl[1], *pa\n}", false}, {"*pt, st = st, *pt", false},
+	{"{\npa := &as[0]\nas[0], as[1] = as[1], *pa\n}", false}, {"{\npa := &i\ni, j = j, *pa\n}", false}, {"st.N, *st.P = *st.P, st.N", false},
+	{"pt.N, pt.A[0] = pt.A[0], pt.N", false}, {"st.A, su.A = su.A, st.A", false}, {"as[0], as[1] = as[1], as[0]", false}, {"i, j = j, (i)", false},
+	{"i, j = j, int(i)", false}, {"i, j = j, -i", false}, {"sl, sm = sm[:1], sl[:2]", false}, {"{\nvar e interface{} = i\ni, j = j, e.(int)\n}", false},
+	{"st, su = su, T{N: st.N, A: st.A}", false}, {"ar, br = br, [3]int(ar)", false}, {"{\npa := &ar\nar[0], ar[1] = ar[1], pa[0]\n}", false},
 	{"i, j = j, i", false}, {"sl[0], sl[1] = sl[1], sl[0]", false}, {"ar[i%3], i = i, ar[i%3]", true}, {"st.N, su.N = su.N, st.N", false}, {"i, sl[i%2] = 1, 9", false}, {"ar, br = br, ar", false}, {"st, su = su, st", false},
 }
 
